@@ -11,6 +11,9 @@
 import JaqVerif.Lemmas.C12Sort
 import JaqVerif.Lemmas.C12Flat
 import JaqVerif.Lemmas.C12More
+import JaqVerif.Lemmas.C12Defs
+import JaqVerif.Gen.C12Defs
+import JaqVerif.Lemmas.C12Val08
 
 namespace Jaq.Coll
 
@@ -968,6 +971,617 @@ theorem transpose_shape (rows : List (List Val)) :
     rw [hmax]
     simp only [vInt, Int.toNat_natCast, hrows]
 
+
+
+/-! # Round 2
+
+## full statements for the repaired tree
+
+The three findings of round 1 are repaired in `/repo` (01c8867 strict upper guard of `round`,
+9af2ef8 `flatten($d)` defined as in the manual, 18d00c4 `totype` collects `fromjson`); the model
+follows the repaired code (`fixedRoundGuard`, `fixedFlatten`, `fixedToType` are `true`), and the
+statements that were comments in round 1 are theorems now.  The `_partial` / `_witnesses`
+theorems above keep describing the tree as found. -/
+
+/-- the manual's recursion `def flattens($d): if isarray and $d >= 0 then .[] | flattens($d-1) end` -/
+theorem flattens_eqn (d : Int) (v : Val) :
+    flattens d v = (match v with
+      | .arr xs => if 0 ≤ d then xs.flatMap (flattens (d - 1)) else [v]
+      | v => [v]) := by
+  unfold flattens
+  by_cases hd : d < 0
+  · rw [if_pos hd]
+    cases v with
+    | arr xs =>
+      show [Val.arr xs] = if 0 ≤ d then _ else [Val.arr xs]
+      rw [if_neg (by omega)]
+    | _ => rfl
+  · rw [if_neg hd]
+    cases v with
+    | arr xs =>
+      simp only []
+      rw [if_pos (by omega), flattensN_succ_arr]
+      apply flatMap_congr_mem
+      intro x _
+      by_cases h0 : d = 0
+      · subst h0
+        show flattensN 0 x = if (0 - 1 : Int) < 0 then [x] else _
+        rw [if_pos (by decide)]; rfl
+      · rw [if_neg (by omega)]
+        have : (d - 1).toNat + 1 = d.toNat := by omega
+        rw [this]
+    | _ => rfl
+
+/-- **`flatten($d)` = `[flattens($d)]`** with the manual's `flattens`, for every input and every
+integer depth (negative depths and non-arrays included: `[.]`). -/
+theorem flatten_spec (d : Int) (v : Val) : flattenDepth d v = .ok (.arr (flattens d v)) := rfl
+
+/-- **`floor` / `round` / `ceil` yield the closest smaller / closest / closest larger integer**
+(`roundSpecNum`: integers unchanged, a finite float becomes the exact integer
+`exactRound`, characterised by `exactRound_floor/round/ceil`; `nan` and the infinities are
+returned as they are), for EVERY number. -/
+theorem round_spec (m : RMode) (n : Num) : roundVal m (.num n) = .ok (.num (roundSpecNum m n)) := by
+  show Except.ok (Val.num (roundNum fixedRoundGuard m n)) = _
+  rw [show fixedRoundGuard = true from rfl, round_spec_fixed]
+
+/-- … in particular for every finite double the result is the exact integer, as a machine
+integer when it fits `isize` and as a big integer otherwise (the edge `2^63` and everything
+beyond it included) -/
+theorem round_exact_finite (m : RMode) (b : UInt64) (hf : F64.isFinite b = true) :
+    roundVal m (.num (.float b)) = .ok (.num (Num.ofInt (exactRound m b))) ∧
+    (fitsIsize (exactRound m b) = true → Num.ofInt (exactRound m b) = .int (exactRound m b)) ∧
+    (fitsIsize (exactRound m b) = false → Num.ofInt (exactRound m b) = .big (exactRound m b)) := by
+  refine ⟨?_, fun h => by simp [Num.ofInt, h], fun h => by simp [Num.ofInt, h]⟩
+  rw [round_spec]
+  show Except.ok (Val.num (if F64.isFinite b then _ else _)) = _
+  rw [hf]; rfl
+
+theorem roundVal_of (m : RMode) (n r : Num) (h : roundSpecNum m n = r) : roundVal m (.num n) = .ok (.num r) := by
+  rw [round_spec, h]
+
+set_option exponentiation.threshold 1100 in
+/-- the edge of F-12a and beyond, on the model of the repaired tree: `2^63`, `2^63 + 2048`,
+`-2^63 - 2048` and `1e19` come out as the exact big integers, `2^63 - 1024` and `-2^63` as
+machine integers -/
+theorem round_edge_examples :
+    roundVal .floor (.num (.float 0x43E0000000000000)) = .ok (.num (.big 9223372036854775808)) ∧
+    roundVal .round (.num (.float 0x43E0000000000001)) = .ok (.num (.big 9223372036854777856)) ∧
+    roundVal .ceil (.num (.float 0xC3E0000000000001)) = .ok (.num (.big (-9223372036854777856))) ∧
+    roundVal .round (.num (.dec "1e19")) = .ok (.num (.big 10000000000000000000)) ∧
+    roundVal .ceil (.num (.float 0x43DFFFFFFFFFFFFF)) = .ok (.num (.int 9223372036854774784)) ∧
+    roundVal .floor (.num (.float 0xC3E0000000000000)) = .ok (.num (.int (-9223372036854775808))) :=
+  ⟨roundVal_of _ _ _ (by decide +kernel), roundVal_of _ _ _ (by decide +kernel), roundVal_of _ _ _ (by decide +kernel),
+   roundVal_of _ _ _ (by decide +kernel), roundVal_of _ _ _ (by decide +kernel), roundVal_of _ _ _ (by decide +kernel)⟩
+
+/-- **`tonumber` / `toboolean`**: a value of the type is returned unchanged; a string is parsed
+and the result is the single parsed value if it has the type; in every other case (no value,
+several values, a value of another type, a parse error) there is exactly one failure — never no
+output, never two.  `fj` is the output stream of the JSON reader on the input. -/
+theorem tonumber_spec (v : Val) (fj : List ValR) :
+    tonumber v fj = toTypeSpec isnumber (.str "cannot parse as number") v fj ∧
+    (∃ r, tonumber v fj = [r]) ∧
+    (isnumber v = true → tonumber v fj = [.ok v]) ∧
+    (isnumber v = false → ∀ y, fj = [.ok y] → isnumber y = true → tonumber v fj = [.ok y]) ∧
+    (isnumber v = false → (∀ y, fj ≠ [.ok y]) → ∃ e, tonumber v fj = [.error e]) := by
+  have h0 : tonumber v fj = toTypeSpec isnumber (.str "cannot parse as number") v fj := rfl
+  refine ⟨h0, ?_, ?_, ?_, ?_⟩
+  · rw [h0]; exact (tonumber_spec_partial _ _ _ _).2.2
+  · intro hp; rw [h0]; exact ((tonumber_spec_partial _ _ _ _).1 hp).2
+  · rintro hp y rfl hy
+    rw [h0]; simp [toTypeSpec, hp, firstError, hy]
+  · intro hp hne
+    rw [h0]
+    unfold toTypeSpec
+    rw [if_neg (by simp [hp])]
+    cases hfe : firstError fj with
+    | some er => exact ⟨er, rfl⟩
+    | none =>
+      match fj, hne, hfe with
+      | [], _, _ => exact ⟨_, rfl⟩
+      | [.ok y], hne, _ => exact absurd rfl (hne y)
+      | [.error e], _, hfe => simp [firstError] at hfe
+      | r1 :: _ :: _, _, _ => cases r1 <;> exact ⟨_, rfl⟩
+
+theorem toboolean_spec (v : Val) (fj : List ValR) :
+    toboolean v fj = toTypeSpec isboolean (.str "cannot parse as boolean") v fj ∧
+    (∃ r, toboolean v fj = [r]) ∧
+    (isboolean v = true → toboolean v fj = [.ok v]) ∧
+    (isboolean v = false → ∀ y, fj = [.ok y] → isboolean y = true → toboolean v fj = [.ok y]) := by
+  have h0 : toboolean v fj = toTypeSpec isboolean (.str "cannot parse as boolean") v fj := rfl
+  refine ⟨h0, ?_, ?_, ?_⟩
+  · rw [h0]; exact (tonumber_spec_partial _ _ _ _).2.2
+  · intro hp; rw [h0]; exact ((tonumber_spec_partial _ _ _ _).1 hp).2
+  · rintro hp y rfl hy
+    rw [h0]; simp [toTypeSpec, hp, firstError, hy]
+
+/-! ## the definitions the models transcribe are the definitions in the tree -/
+
+/-- **Translator.** The definitions of `jaq-core/src/defs.jq`, `jaq-json/src/defs.jq`,
+`jaq-std/src/defs.jq` that C12 models, as the real parser reads the real files on this run
+(`Gen.defs`, regenerated by the check), are the ones the Lean models were transcribed from.  A
+changed definition makes this theorem — and with it the build of every theorem here — fail. -/
+theorem defs_as_transcribed : Gen.defs = expectedDefs := by decide
+
+/-! ## `map`, `map_values`, `walk`, `with_entries` -/
+
+/-- **`map(f)` = `[.[] | f]`**: all outputs of `f` on all values of the input, in order, as one
+array; it fails where `.[]` fails … -/
+theorem map_spec (f : Flt) (outs : Val → List Val) (v : Val) (els : List Val) (hv : values v = .ok els)
+    (hf : ∀ x ∈ els, f x = (outs x).map .ok) :
+    mapF f v = .ok (.arr (els.flatMap outs)) := by
+  unfold mapF
+  rw [hv]
+  show (collect (els.flatMap f)).map Val.arr = _
+  rw [collect_flatMap_oks f outs els hf]; rfl
+
+/-- … and with the first error `f` raises (elements in order, outputs in order). -/
+theorem map_first_error (f : Flt) (outs : Val → List Val) (pre : List Val) (x : Val) (post good : List Val)
+    (e : Err) (rest : List ValR) (hpre : ∀ y ∈ pre, f y = (outs y).map .ok)
+    (hx : f x = good.map .ok ++ .error e :: rest) :
+    mapF f (.arr (pre ++ x :: post)) = .error e ∧ (∀ v, values v = .error e → mapF f v = .error e) := by
+  constructor
+  · show (collect ((pre ++ x :: post).flatMap f)).map Val.arr = _
+    rw [collect_flatMap_error f outs pre x post good e rest hpre hx]; rfl
+  · intro v hv; unfold mapF; rw [hv]
+
+/-- **`map_values(f)` has the same effect as `map(f)` when the input is an array** (all outputs
+of `f`, not only the first) … -/
+theorem mapValues_arr_eq_map (f : Flt) (a : List Val) : mapValues f (.arr a) = mapF f (.arr a) := rfl
+
+/-- … **and on an object it yields an object**: keys and their order are kept, every value is
+replaced by the first output of `f` on it, and an entry on which `f` yields nothing is removed
+(`sel x` = that first output, if any).  Other inputs fail. -/
+theorem mapValues_obj_spec (f : Flt) (sel : Val → Option Val) (o : Obj.Entries)
+    (hf : ∀ p ∈ o, (f p.2).head? = (sel p.2).map .ok) :
+    mapValues f (.obj o) = .ok (.obj (o.filterMap fun p => (sel p.2).map fun y => (p.1, y))) ∧
+    (∀ v, (∀ a, v ≠ .arr a) → (∀ o', v ≠ .obj o') → mapValues f v = .error (errIter v)) := by
+  constructor
+  · show (updEntries f o).map Val.obj = _
+    rw [updEntries_sel f sel o hf]; rfl
+  · intro v ha ho
+    cases v with
+    | arr a => exact absurd rfl (ha a)
+    | obj o' => exact absurd rfl (ho o')
+    | _ => rfl
+
+/-- **`walk(f)` = `(.[]? |= walk(f)) | f`** — the equation by which the manual shows `.. |= f`
+equivalent to jq's `walk`: the children are walked first (an array takes all outputs of every
+child, an object the first output per entry, scalars have no children), then `f` is applied to the
+rebuilt value and all its outputs are the outputs. -/
+theorem walk_eqn (f : Flt) (v : Val) :
+    walk f v = (match mapValuesOpt true (walk f) v with
+      | .error e => [.error e]
+      | .ok v' => f v') := by
+  unfold walk
+  obtain ⟨n, hn⟩ : ∃ n, v.size = n + 1 := ⟨v.size - 1, by have := Val.size_pos v; omega⟩
+  rw [hn, walkF_succ]
+  cases v with
+  | arr xs =>
+    have hsz : ∀ x ∈ xs, walkF n f x = walkF x.size f x := by
+      intro x hx
+      have := Val.size_lt_of_mem hx
+      simp only [Val.size] at hn
+      exact walkF_mono f n x.size x (by omega) (Nat.le_refl _)
+    rw [mapValuesOpt_arr, mapValuesOpt_arr, flatMap_congr_mem hsz]
+    rfl
+  | obj o =>
+    have hsz : ∀ p ∈ o, walkF n f p.2 = walkF p.2.size f p.2 := by
+      intro p hp
+      have := Val.size_entry_of_mem (k := p.1) (v := p.2) hp
+      simp only [Val.size] at hn
+      exact walkF_mono f n p.2.size p.2 (by omega) (Nat.le_refl _)
+    rw [mapValuesOpt_obj, mapValuesOpt_obj, updEntries_congr (g' := fun x => walkF x.size f x) hsz]
+    rfl
+  | _ => rfl
+
+/-- on a scalar `walk(f)` is `f`; with a one-output `f` on an array it is `f` of the walked elements -/
+theorem walk_scalar_and_pure (f : Flt) :
+    (∀ v, (∀ a, v ≠ .arr a) → (∀ o, v ≠ .obj o) → walk f v = f v) ∧
+    (∀ (g : Val → Val) (a : List Val) (w : Val → Val), f = pureF g → (∀ x ∈ a, walk f x = [.ok (w x)]) →
+      walk f (.arr a) = [.ok (g (.arr (a.map w)))]) := by
+  constructor
+  · intro v ha ho
+    rw [walk_eqn, mapValuesOpt_scalar _ ha ho]
+  · intro g a w hg hw
+    rw [walk_eqn, mapValuesOpt_arr, collect_flatMap_oks (walk f) (fun x => [w x]) a (by simpa using hw)]
+    subst hg
+    show [Except.ok (g (.arr (a.flatMap fun x => [w x])))] = _
+    congr 4
+    induction a with
+    | nil => rfl
+    | cons x a ih => rw [List.flatMap_cons, List.map_cons, ih (fun y hy => hw y (List.mem_cons_of_mem _ hy))]; rfl
+
+/-- **`with_entries(f)` = `to_entries | map(f) | from_entries`**, and with `f = .` it is the
+identity on objects (`withEntries_id`) — also for `false` / `null` values and keys, which the
+round trip reads back with `.key` and `.value` (not with `//`). -/
+theorem withEntries_def (f : Flt) (v : Val) :
+    withEntries f v = (toEntries v >>= mapF f >>= fromEntries) ∧
+    withEntries (pureF id) v = withEntriesId v := by
+  constructor
+  · unfold withEntries
+    cases toEntries v with
+    | error e => rfl
+    | ok es =>
+      show (match mapF f es with | .error e => .error e | .ok es' => fromEntries es') = (mapF f es >>= fromEntries)
+      cases mapF f es <;> rfl
+  · unfold withEntries withEntriesId
+    cases hv : toEntries v with
+    | error e => rfl
+    | ok es =>
+      have : ∃ l, es = .arr l := by
+        unfold toEntries at hv
+        cases hk : keyValues v with
+        | error e => rw [hk] at hv; cases hv
+        | ok kvs => rw [hk] at hv; exact ⟨_, (Except.ok.inj hv).symm⟩
+      obtain ⟨l, rfl⟩ := this
+      have hm : mapF (pureF id) (.arr l) = .ok (.arr l) := by
+        rw [map_spec (pureF id) (fun x => [x]) (.arr l) l rfl (fun _ _ => rfl), flatMap_pure]
+      show (match mapF (pureF id) (.arr l) with | .error e => .error e | .ok es' => fromEntries es') = fromEntries (.arr l)
+      rw [hm]
+
+/-- an object with `false` and `null` values and the keys `false`, `null`, `0`, `[1]` satisfies the
+hypothesis of `entries_roundtrip` / `withEntries_id`, and the round trip is computed as the identity -/
+example : withEntriesId (.obj [(.bool false, .bool false), (.null, .null), (vInt 0, .bool false), (.arr [vInt 1], .null), (sKey, .bool false)])
+    = .ok (.obj [(.bool false, .bool false), (.null, .null), (vInt 0, .bool false), (.arr [vInt 1], .null), (sKey, .bool false)]) :=
+  withEntries_id _ (by decide)
+
+/-! ## `add`, `all`, `any`, selection -/
+
+/-- **`add`** is the sum of the values of the input from left to right (`null` for none), and fails
+where `.[]` or `+` fails -/
+theorem add_spec :
+    add0 (.arr []) = .ok .null ∧
+    (∀ x xs, add0 (.arr (x :: xs)) = addAll x xs) ∧
+    (∀ parts : List (List UInt8), add0 (.arr (.tstr [] :: parts.map .tstr)) = .ok (.tstr parts.flatten)) ∧
+    (∀ fs : List Val, addG (fs.map .ok) = addAll .null fs) := by
+  refine ⟨rfl, fun x xs => ?_, fun parts => ?_, fun fs => ?_⟩
+  · show addAll .null (x :: xs) = _
+    rw [addAll_cons]; rfl
+  · show addAll .null (.tstr [] :: parts.map .tstr) = _
+    rw [addAll_cons]
+    show addAll (.tstr []) _ = _
+    rw [addAll_tstrs]; rfl
+  · unfold addG
+    generalize Val.null = acc
+    induction fs generalizing acc with
+    | nil => rfl
+    | cons x fs ih =>
+      rw [List.map_cons, addAll_cons]
+      show (match Val.add acc x with | .error e => Except.error e | .ok acc' => addS acc' (fs.map .ok)) = _
+      cases Val.add acc x with
+      | error e => rfl
+      | ok a => exact ih a
+
+/-- **`all(cond)` / `any(cond)`** on an array with a condition of one boolean output: the
+conjunction / disjunction over the elements (`true` / `false` on `[]`); `all` = `all(.)`. -/
+theorem all_any_spec (pb : Val → Bool) (a : List Val) :
+    allF (pureF fun x => .bool (pb x)) (.arr a) = .ok (.bool (a.all pb)) ∧
+    anyF (pureF fun x => .bool (pb x)) (.arr a) = .ok (.bool (a.any pb)) ∧
+    all0 (.arr []) = .ok (.bool true) ∧ any0 (.arr []) = .ok (.bool false) :=
+  ⟨firstFalsy_pure pb a, firstTruthy_pure pb a, rfl, rfl⟩
+
+/-- **The selection filters** output their input exactly when it has the named type
+(`values`: not `null`; `iterables`: array or object; `scalars`: the others), else nothing. -/
+theorem selection_spec (v : Val) :
+    selValues v = (if ctorName v = "null" then [] else [v]) ∧
+    selNulls v = (if ctorName v = "null" then [v] else []) ∧
+    sel isboolean v = (if ctorName v = "boolean" then [v] else []) ∧
+    sel isnumber v = (if ctorName v = "number" then [v] else []) ∧
+    sel isstring v = (if ctorName v = "string" then [v] else []) ∧
+    sel isarray v = (if ctorName v = "array" then [v] else []) ∧
+    sel isobject v = (if ctorName v = "object" then [v] else []) ∧
+    selIterables v = (if ctorName v = "array" ∨ ctorName v = "object" then [v] else []) ∧
+    selScalars v = (if ctorName v = "array" ∨ ctorName v = "object" then [] else [v]) := by
+  obtain ⟨h1, h2, h3, h4, h5⟩ := istype_spec v
+  simp only [selValues, selNulls, selIterables, selScalars, sel, h1, h2, h3, h4, h5, eq_null, vGe, vLt, cmp_eArr]
+  cases v with
+  | bool b => simp [ctorName]
+  | tstr x => simp [ctorName]
+  | bstr x => simp [ctorName]
+  | arr x => cases x <;> simp [ctorName]
+  | obj x => simp [ctorName]
+  | _ => simp [ctorName]
+
+/-! ## `has`, `in` -/
+
+/-- **`has($k)`**: on an object, whether the key is present (any key type); on an array, whether
+the integer points into it, negative positions counting from the end; `null` has nothing; booleans,
+numbers and text strings fail (a text string with a slice object `{start, end}` as `$k` is C10's).  **`in(xs)`** is `has` flipped. -/
+theorem has_in_spec :
+    (∀ o k, hasF (.obj o) k = some (.ok (.bool (Obj.get o k).isSome))) ∧
+    (∀ (a : List Val) (i : Int), hasF (.arr a) (vInt i) =
+      some (.ok (.bool (decide (-(a.length : Int) ≤ i ∧ i < a.length))))) ∧
+    (∀ k, hasF .null k = some (.ok (.bool false))) ∧
+    (∀ b k, hasF (.bool b) k = some (.error (.index (.bool b) k))) ∧
+    (∀ n k, hasF (.num n) k = some (.error (.index (.num n) k))) ∧
+    (∀ s k, (∀ o, k ≠ .obj o) → hasF (.tstr s) k = some (.error (.index (.tstr s) k))) ∧
+    (∀ k xs, inF k xs = hasF xs k) := by
+  refine ⟨fun o k => rfl, fun a i => ?_, fun k => rfl, fun b k => rfl, fun n k => rfl, fun s k hk => by cases k <;> first | rfl | exact absurd rfl (hk _), fun k xs => rfl⟩
+  show some (Except.ok (Val.bool (absIndex i a.length).isSome)) = _
+  congr 3
+  unfold absIndex
+  by_cases h0 : 0 ≤ i
+  · rw [if_pos h0]
+    by_cases h1 : i.toNat < a.length
+    · rw [if_pos h1]; simp; omega
+    · rw [if_neg h1]; simp; omega
+  · rw [if_neg h0]
+    by_cases h1 : i.natAbs ≤ a.length
+    · rw [if_pos h1]; simp; omega
+    · rw [if_neg h1]; simp; omega
+
+/-! ## `join`, `combinations`, `splits` -/
+
+/-- **`join($s)`** on an array whose elements print (`tostring`) as the texts `tb x`: every
+element but the last is followed by the separator, and the pieces are concatenated; `""` for `[]`. -/
+theorem join_spec (ts : Val → Val) (tb : Val → List UInt8) (s : List UInt8) (a : List Val)
+    (hts : ∀ x ∈ a, ts x = .tstr (tb x)) :
+    join ts (.tstr s) (.arr a) =
+      .ok (.tstr ((a.dropLast.flatMap fun x => tb x ++ s) ++ (a.drop (a.length - 1)).flatMap tb)) := by
+  have hmv : mapValues (pureF ts) (.arr a) = .ok (.arr (a.map fun x => .tstr (tb x))) := by
+    show (collect (a.flatMap (pureF ts))).map Val.arr = _
+    rw [collect_flatMap_oks (pureF ts) (fun x => [.tstr (tb x)]) a (fun x hx => by simp [pureF, hts x hx])]
+    show Except.ok (Val.arr _) = _
+    congr 2
+    clear hts
+    induction a with
+    | nil => rfl
+    | cons x a ih => rw [List.flatMap_cons, List.map_cons, ih]; rfl
+  unfold join
+  rw [hmv]
+  simp only []
+  rw [← List.map_dropLast, mapM'_oks (fun x => Val.add x (.tstr s)) (fun x => match x with | .tstr b => .tstr (b ++ s) | v => v)
+    _ (by
+      intro x hx
+      obtain ⟨y, _, rfl⟩ := List.mem_map.1 hx
+      rfl)]
+  simp only [List.map_map, List.length_map, ← List.map_drop]
+  have e1 : (a.dropLast.map ((fun x => match x with | .tstr b => .tstr (b ++ s) | v => v) ∘ fun x => Val.tstr (tb x))) =
+      (a.dropLast.map fun x => tb x ++ s).map Val.tstr := by
+    rw [List.map_map]; rfl
+  have e2 : ((a.drop (a.length - 1)).map fun x => Val.tstr (tb x)) = ((a.drop (a.length - 1)).map tb).map Val.tstr := by
+    rw [List.map_map]; rfl
+  rw [e1, e2, ← List.map_append, addAll_tstrs]
+  simp [List.flatten_append, List.flatMap_def]
+
+/-- **`combinations`** of an array of arrays: the cartesian product — every output takes one
+element of every row, in row order, every such choice occurs, the first row varies slowest, and
+there are `∏ |row|` outputs (`[[]]` for no rows, nothing if a row is empty). -/
+theorem combinations_spec (rows : List (List Val)) :
+    combinations (.arr (rows.map Val.arr)) = (cart rows).map (fun c => Except.ok (Val.arr c)) ∧
+    (∀ c, c ∈ cart rows ↔ Chooses c rows) ∧
+    (cart rows).length = (rows.map List.length).foldr (· * ·) 1 ∧
+    (∀ row rest, cart (row :: rest) = row.flatMap fun x => (cart rest).map fun c => x :: c) := by
+  refine ⟨?_, mem_cart rows, length_cart rows, fun _ _ => rfl⟩
+  unfold combinations
+  show (match mapM' values (rows.map Val.arr) with | .error e => [Except.error e] | .ok rs => _) = _
+  rw [mapM'_oks values (fun v => match v with | .arr a => a | _ => []) _ (by
+    intro x hx
+    obtain ⟨r, _, rfl⟩ := List.mem_map.1 hx
+    rfl)]
+  simp only [List.map_map]
+  have : (rows.map ((fun v => match v with | .arr a => a | _ => []) ∘ Val.arr)) = rows := by
+    induction rows with
+    | nil => rfl
+    | cons r rows ih => rw [List.map_cons, ih]; rfl
+  rw [this, combos_eq_cart]
+  simp
+
+/-- `combinations($n)` is `combinations` of `$n` copies of the input -/
+theorem combinationsN_def (n : Nat) (v : Val) : combinationsN n v = combinations (.arr (List.replicate n v)) := rfl
+
+/-- **`splits(re; flags)` = `split(re; flags)[]`**, `split(re; flags)` calls the engine with
+`flags + "g"`, `splits(re)` = `splits(re; "")` — for any regular-expression engine `sn`. -/
+theorem splits_spec (sn : Val → Val → Val → ValR) (re v : Val) :
+    (∀ fl fl' parts, Val.add fl (.tstr [103]) = .ok fl' → sn re fl' v = .ok (.arr parts) →
+      splitRe sn re fl v = .ok (.arr parts) ∧ splits sn re fl v = parts.map .ok) ∧
+    (∀ fl fl' e, Val.add fl (.tstr [103]) = .ok fl' → sn re fl' v = .error e → splits sn re fl v = [Except.error e]) ∧
+    splits1 sn re v = splits sn re (.tstr []) v := by
+  refine ⟨?_, ?_, rfl⟩
+  · intro fl fl' parts h1 h2
+    have : splitRe sn re fl v = .ok (.arr parts) := by unfold splitRe; rw [h1]; exact h2
+    refine ⟨this, ?_⟩
+    unfold splits; rw [this]; rfl
+  · intro fl fl' e h1 h2
+    have : splitRe sn re fl v = .error e := by unfold splitRe; rw [h1]; exact h2
+    unfold splits; rw [this]
+
+/-! ## `delpaths`, `del`, `paths(p)`, `pick` -/
+
+/-- **`delpaths($paths)`** deletes the paths one after the other, each relative to the result of
+the previous deletion (not all relative to the input); deleting the root (`[]`) leaves no output;
+the first failure is the result. -/
+theorem delpaths_spec (v : Val) :
+    delpaths [] v = some [.ok v] ∧
+    (∀ ps, delpaths ([] :: ps) v = some []) ∧
+    (∀ p ps v', delPath p v = some (.ok (some v')) → delpaths (p :: ps) v = delpaths ps v') ∧
+    (∀ p ps e, delPath p v = some (.error e) → delpaths (p :: ps) v = some [.error e]) := by
+  refine ⟨rfl, fun ps => rfl, ?_, ?_⟩
+  · intro p ps v' h; show (match delPath p v with | none => none | some (.error e) => _ | some (.ok none) => _ | some (.ok (some v')) => _) = _; rw [h]
+  · intro p ps e h; show (match delPath p v with | none => none | some (.error e) => _ | some (.ok none) => _ | some (.ok (some v')) => _) = _; rw [h]
+
+/-- **`del(.[k])`**: on an array the element at position `k` (negative: from the end) is
+removed and the others keep their order; a position outside fails; on an object the entry is
+removed (`swap_remove`; an absent key changes nothing). -/
+theorem del_index_spec :
+    (∀ (a : List Val) (i : Nat), i < a.length →
+      delIndex (vInt i) (.arr a) = some [.ok (.arr (a.take i ++ a.drop (i + 1)))]) ∧
+    (∀ (a : List Val) (i : Nat), 0 < i → i ≤ a.length →
+      delIndex (vInt (-(i : Int))) (.arr a) = some [.ok (.arr (a.take (a.length - i) ++ a.drop (a.length - i + 1)))]) ∧
+    (∀ (a : List Val) (i : Int), (i < -(a.length : Int) ∨ (a.length : Int) ≤ i) →
+      delIndex (vInt i) (.arr a) = some [.error (errOob i)]) ∧
+    (∀ o k, delIndex k (.obj o) = some [.ok (.obj (Obj.swapRemove o k))]) := by
+  refine ⟨?_, ?_, ?_, ?_⟩
+  · intro a i hi
+    have h1 : absIndex (i : Int) a.length = some i := by
+      unfold absIndex; simp [hi]
+    show (match delPath [vInt i] (.arr a) with | none => none | some (.error e) => _ | some (.ok none) => _ | some (.ok (some v')) => _) = _
+    simp only [delPath, vInt, Int.ofNat_eq_natCast, h1, List.eraseIdx_eq_take_drop_succ]
+    rfl
+  · intro a i h0 hi
+    have h1 : absIndex (-(i : Int)) a.length = some (a.length - i) := by
+      unfold absIndex
+      rw [if_neg (by omega), if_pos (by omega)]
+      congr 1; omega
+    show (match delPath [vInt (-(i : Int))] (.arr a) with | none => none | some (.error e) => _ | some (.ok none) => _ | some (.ok (some v')) => _) = _
+    simp only [delPath, vInt, h1, List.eraseIdx_eq_take_drop_succ]
+    rfl
+  · intro a i hi
+    have h1 : absIndex i a.length = none := by
+      unfold absIndex
+      by_cases h0 : 0 ≤ i
+      · rw [if_pos h0, if_neg (by omega)]
+      · rw [if_neg h0, if_neg (by omega)]
+    show (match delPath [vInt i] (.arr a) with | none => none | some (.error e) => _ | some (.ok none) => _ | some (.ok (some v')) => _) = _
+    simp only [delPath, vInt, h1]
+  · intro o k
+    show (match delPath [k] (.obj o) with | none => none | some (.error e) => _ | some (.ok none) => _ | some (.ok (some v')) => _) = _
+    cases hg : Obj.get o k with
+    | some x => simp only [delPath, hg]; rfl
+    | none =>
+      simp only [delPath, hg]
+      show some [Except.ok (Val.obj o)] = _
+      congr 4
+      unfold Obj.swapRemove
+      have : o.findIdx? (fun x => match x with | (k', _) => Obj.sameKey k k') = none := by
+        unfold Obj.get at hg
+        cases hf : o.find? (fun x => match x with | (k', _) => Obj.sameKey k k') with
+        | some p => rw [hf] at hg; cases hg
+        | none =>
+          rw [List.findIdx?_eq_none_iff]
+          exact fun x hx => by simpa using List.find?_eq_none.1 hf x hx
+      rw [this]
+
+/-- **`paths(p)`** with a predicate of one boolean output: the paths of the proper sub-values
+(parents before children, in document order) whose value satisfies `p`. -/
+theorem paths_spec (pb : Val → Bool) (v : Val) :
+    pathsP (pureF fun x => .bool (pb x)) v =
+      (((pathValues v).drop 1).filter fun pv => pb pv.2).map fun pv => .ok (.arr pv.1) := by
+  unfold pathsP
+  generalize (pathValues v).drop 1 = l
+  induction l with
+  | nil => rfl
+  | cons pv l ih =>
+    rw [List.flatMap_cons, List.filter_cons]
+    cases h : pb pv.2
+    · have : pathsStep (pureF fun x => .bool (pb x)) pv = [] := by simp [pathsStep, pureF, asBool, h]
+      rw [this]
+      show cut (List.flatMap _ l) = _
+      rw [ih]; rfl
+    · have : pathsStep (pureF fun x => .bool (pb x)) pv = [.ok (.arr pv.1)] := by simp [pathsStep, pureF, asBool, h]
+      rw [this]
+      show Except.ok _ :: cut (List.flatMap _ l) = _
+      rw [ih]; rfl
+
+/-- the sub-values `paths` ranges over: the value itself at `[]`, then for an array the
+sub-values of element `i` under `i`, for an object those of every entry under its key -/
+theorem pathValues_head (v : Val) : (pathValues v).head? = some ([], v) := by
+  unfold pathValues
+  obtain ⟨n, hn⟩ : ∃ n, v.size = n + 1 := ⟨v.size - 1, by have := Val.size_pos v; omega⟩
+  rw [hn]; rfl
+
+/-- **`pick(f)`** builds, for every path `f` yields, the nested object `{p₁: {p₂: … value}}`
+(array indices become keys) and merges them with `*` in order; no path: `{}`. -/
+theorem pick_spec :
+    pick [] = .ok (.obj []) ∧
+    (∀ (k : Val) (ks : List Val) (x : Val), pick [(k :: ks, x)] = .ok (nest (k :: ks) x)) ∧
+    (∀ (k : Val) (ks : List Val) (x : Val), nest (k :: ks) x = .obj [(k, nest ks x)]) ∧ (∀ x, nest [] x = x) := by
+  refine ⟨rfl, fun k ks x => ?_, fun _ _ _ => rfl, fun _ => rfl⟩
+  show (match Val.mul (.obj []) (.obj [(k, nest ks x)]) with | .error e => Except.error e | .ok acc' => pickLoop acc' []) = _
+  have : Val.mul (.obj []) (.obj [(k, nest ks x)]) = .ok (.obj [(k, nest ks x)]) := by
+    show Except.ok (Val.obj (objMerge [] [(k, nest ks x)])) = _
+    congr 2
+  rw [this]; rfl
+
+
+/-! ## the sorting theorems on the real order of `Val` (C08)
+
+`TotalPreorder` is no longer only a hypothesis: C08 proves that `impl Ord for Val` (`Jaq.C08.cmp`,
+tied to the Rust code by C08's correspondence and used by the C12 driver for the keyed natives)
+is a total preorder on its guarded domain `InDom m` (NaN-free; integers beyond 2^53 not next to
+finite floats).  For inputs all of whose keys lie in that domain the generic theorems become
+statements about `sort_by` … computed with the real comparison. -/
+
+section val_order
+variable {α ε : Type} {kf : α → Except ε (List Val)} {key : α → List Val}
+
+/-- **`sort_by(f)` on values: a permutation, sorted by `Val`'s order of the key vectors.** -/
+theorem sort_by_val_perm_sorted (m : C08.Mode) (xs : List α) (hk : ∀ x ∈ xs, kf x = .ok (key x))
+    (hd : KeysInDom m key xs) :
+    ∃ out, sortByKey C08.cmp kf xs = .ok out ∧ out.Perm xs ∧ out.Pairwise (KeyLe C08.cmp key) := by
+  obtain ⟨out, h1, h2, h3⟩ := sortBy_perm_sorted (kf := kf) (key := key) (domCmp_preorder m) xs hk
+  refine ⟨out, by rw [sortByKey_dom m xs hk hd]; exact h1, h2, h3.imp_of_mem ?_⟩
+  intro a b ha hb hab
+  show lexCmp C08.cmp (key a) (key b) ≠ .gt
+  rw [← lexCmp_dom m hd (h2.mem_iff.1 ha) (h2.mem_iff.1 hb)]
+  exact hab
+
+/-- **`sort_by(f)` on values is stable**: elements whose key vector is equivalent (under `Val`'s
+order) to a key vector `key x₀` of the input keep their input order. -/
+theorem sort_by_val_stable (m : C08.Mode) (xs : List α) (hk : ∀ x ∈ xs, kf x = .ok (key x))
+    (hd : KeysInDom m key xs) (x₀ : α) (hx₀ : x₀ ∈ xs) :
+    ∃ out, sortByKey C08.cmp kf xs = .ok out ∧
+      out.filter (fun x => lexCmp C08.cmp (key x) (key x₀) == .eq) =
+        xs.filter (fun x => lexCmp C08.cmp (key x) (key x₀) == .eq) := by
+  obtain ⟨out, h1, h2⟩ := sortBy_stable (kf := kf) (key := key) (domCmp_preorder m) xs hk (key x₀)
+  obtain ⟨out', h1', hperm, _⟩ := sortBy_perm_sorted (kf := kf) (key := key) (domCmp_preorder m) xs hk
+  have : out' = out := by rw [h1] at h1'; exact (Except.ok.inj h1').symm
+  subst this
+  refine ⟨out', by rw [sortByKey_dom m xs hk hd]; exact h1, ?_⟩
+  have e1 : out'.filter (fun x => lexCmp C08.cmp (key x) (key x₀) == .eq) =
+      out'.filter (fun x => lexCmp (domCmp m) (key x) (key x₀) == .eq) :=
+    List.filter_congr (fun x hx => by rw [lexCmp_dom m hd (hperm.mem_iff.1 hx) hx₀])
+  have e2 : xs.filter (fun x => lexCmp C08.cmp (key x) (key x₀) == .eq) =
+      xs.filter (fun x => lexCmp (domCmp m) (key x) (key x₀) == .eq) :=
+    List.filter_congr (fun x hx => by rw [lexCmp_dom m hd hx hx₀])
+  rw [e1, e2, h2]
+
+/-- **`min_by(f)` / `max_by(f)` on values**: the first minimal / last maximal element under
+`Val`'s order of the key vectors. -/
+theorem min_max_by_val_extremal (m : C08.Mode) (dflt : α) (xs : List α) (hne : xs ≠ [])
+    (hk : ∀ x ∈ xs, kf x = .ok (key x)) (hd : KeysInDom m key xs) :
+    (∃ mn pre post, minByKey dflt C08.cmp kf xs = .ok mn ∧ xs = pre ++ mn :: post ∧
+      (∀ p ∈ pre, KeyLt C08.cmp key mn p) ∧ (∀ q ∈ post, KeyLe C08.cmp key mn q)) ∧
+    (∃ mx pre post, maxByKey dflt C08.cmp kf xs = .ok mx ∧ xs = pre ++ mx :: post ∧
+      (∀ p ∈ pre, KeyLe C08.cmp key p mx) ∧ (∀ q ∈ post, KeyLt C08.cmp key q mx)) := by
+  obtain ⟨e1, e2⟩ := minByKey_dom (kf := kf) m dflt xs hk hd
+  constructor
+  · obtain ⟨mn, pre, post, h1, h2, h3, h4⟩ := (minBy_extremal (kf := kf) (key := key) (domCmp_preorder m) dflt xs hk).2 hne
+    refine ⟨mn, pre, post, by rw [e1]; exact h1, h2, ?_, ?_⟩
+    · intro p hp
+      show lexCmp C08.cmp (key mn) (key p) = .lt
+      rw [← lexCmp_dom m hd (by rw [h2]; simp) (by rw [h2]; simp [hp])]
+      exact h3 p hp
+    · intro q hq
+      show lexCmp C08.cmp (key mn) (key q) ≠ .gt
+      rw [← lexCmp_dom m hd (by rw [h2]; simp) (by rw [h2]; simp [hq])]
+      exact h4 q hq
+  · obtain ⟨mx, pre, post, h1, h2, h3, h4⟩ := (maxBy_extremal (kf := kf) (key := key) (domCmp_preorder m) dflt xs hk).2 hne
+    refine ⟨mx, pre, post, by rw [e2]; exact h1, h2, ?_, ?_⟩
+    · intro p hp
+      show lexCmp C08.cmp (key p) (key mx) ≠ .gt
+      rw [← lexCmp_dom m hd (by rw [h2]; simp [hp]) (by rw [h2]; simp)]
+      exact h3 p hp
+    · intro q hq
+      show lexCmp C08.cmp (key q) (key mx) = .lt
+      rw [← lexCmp_dom m hd (by rw [h2]; simp [hq]) (by rw [h2]; simp)]
+      exact h4 q hq
+
+end val_order
+
+/-- the domain hypothesis is satisfiable: `[2, 1.0, "a", 1] | sort_by(.)` with `Val`'s order -/
+example : KeysInDom (α := Val) .smallInts (fun x => [x]) [vInt 2, .num (.float 0x3FF0000000000000), .tstr [97], vInt 1] := by
+  intro x hx k hk
+  simp only [List.mem_cons, List.mem_singleton, List.not_mem_nil, or_false] at hx hk
+  subst hk
+  rcases hx with rfl | rfl | rfl | rfl <;> decide
+
+/- STILL OPEN (kept visible):
+   * `group_by_val_*` / `unique_by_val_*`: they need `OrderLaws.eq_iff` for `C08.eq` / `C08.cmp`
+     (`==` is the equivalence of the order), which C08 lists as not yet proved (`eq_iff_cmp_eq`);
+     with that lemma the bridge is `groupRuns` congruence in `e`, analogous to `isort_congr`.
+   * text-string `indices`: `i ∈ indices x ↔ .[i:][:|x|] == x` in characters (needs the link between
+     `charWindowsIdx` and `Utf8.chars` prefixes). -/
 
 /-! ## the hypotheses are satisfiable -/
 
